@@ -227,7 +227,9 @@ CLAIMS = {
              "each thread's results are those of its calls made alone (execZ = the eval-mode function by C01/C02), and every schedule that "
              "gives a thread its turns finishes it - provided the declared buffers are private per thread, which is what the translator reads "
              "from BUFFER_STORAGE and from every declaration site (`static __thread`); plain `static` buffers are refuted by a concrete "
-             "schedule. Partial: the loader/mmap semantics are modelled; that the C implementation gives thread-local and malloc'd objects "
+             "schedule. File identities: the same refinement theorem holds for EVERY inode allocation policy a file system may follow "
+             "(Model/ProcAlloc.v: numbers of replaced files are re-used), and a loader caching by (device, inode) is refuted. "
+             "Partial: the loader/mmap semantics are modelled; that the C implementation gives thread-local and malloc'd objects "
              "these semantics is trusted. Tied by executing histories (fixed dangerous "
              "shapes + random, length <= 5/7) in fresh interpreters and comparing every step with the model in the kernel; 2..16 threads "
              "on same/different handles vs sequential results; compile() on loaded handles; concurrent saves to one path; storage class of every "
